@@ -1074,6 +1074,7 @@ class Sim:
         self.virtual_ms = 0
         core.CURRENT = self
         core.install()
+        gen.on_input = mon.retain
         self.flush_caches()  # no run may depend on what earlier runs in this process left behind
         self.stats.clear()
         try:
